@@ -9,7 +9,23 @@ pub fn configs(tier: Tier) -> Vec<Box<dyn Config>> {
     let sse2 = super::width() == 16;
     let q = tier == Tier::Quick;
     let p = vec![Probe::ManyMut];
-    let mut v = Vec::new();
+    let mut v: Vec<Box<dyn Config>> = Vec::new();
+    v.push(Box::new(ZstManyMut));
+    // scripted deep tables: elements displaced into a second probe group, tombstones, full load
+    {
+        use crate::explore::Limits;
+        use crate::report::BfsConfig;
+        let mut c = MapCfg::new(Plan::Zero, if sse2 { 30 } else { 16 });
+        c.max_buckets = if sse2 { 64 } else { 32 };
+        c.alphabet = Alphabet::core();
+        c.probes = p.clone();
+        let label = format!("{}-map-many-mut-seeded", c.label());
+        let l = Limits { max_depth: Some(0), max_wall_s: if q { 30.0 } else { 600.0 }, ..Default::default() };
+        let mut b = BfsConfig::new(label, MapHarness::<TKey, TVal>::new(c), l);
+        b.seeds = super::c01::seeds_for(super::width()).into_iter().step_by(if q { 4 } else { 1 }).collect();
+        v.push(Box::new(b));
+        v.push(super::c06::seeded_with(Plan::Zero, false, 0, vec![TProbe::ManyMut], tier));
+    }
     if sse2 {
         v.push(super::c09::map_cfg(Plan::Zero, if q { 7 } else { 10 }, p.clone(), tier, "map-many-mut"));
         v.push(super::c09::map_cfg(Plan::Adv(0), if q { 4 } else { 6 }, p.clone(), tier, "map-many-mut"));
@@ -27,4 +43,115 @@ pub fn configs(tier: Tier) -> Vec<Box<dyn Config>> {
         v.push(super::c06::tab(Plan::Cluster(2), 4, 5, vec![TProbe::ManyMut], false, tier, "-many-mut"));
     }
     v
+}
+
+// ---------------------------------------------------------------------------
+// Zero-sized elements: every bucket of a `HashTable<()>` has the same element address, so "the same
+// entry" must be decided by position, not by address. Entries are inserted with distinct hashes into a
+// table that never needs to re-hash (the re-hashing closure cannot tell zero-sized elements apart).
+// ---------------------------------------------------------------------------
+
+use crate::env::{self, CheckAlloc};
+use crate::report::{ConfigReport, Viol};
+use serde_json::{json, Value};
+
+pub struct ZstManyMut;
+
+fn zst_tuple<const N: usize>(n: usize, req: [usize; N]) -> Result<(), String> {
+    type T = hashbrown::HashTable<(), CheckAlloc>;
+    let hash_of = |i: usize| mk_hash(3 * i as u64 + 1, 0x20 + i as u8);
+    let mut t = T::with_capacity_in(14, CheckAlloc);
+    for i in 0..n {
+        t.insert_unique(hash_of(i), (), |_| unreachable!("a table with spare capacity must not re-hash"));
+    }
+    // request index n = a hash nothing was inserted with
+    let hashes: [u64; N] = std::array::from_fn(|i| hash_of(req[i]));
+    let mut expect_panic = false;
+    for i in 0..N {
+        for j in 0..i {
+            if req[i] == req[j] && req[i] < n {
+                expect_panic = true;
+            }
+        }
+    }
+    let what = format!("HashTable<()> with {n} entries (distinct hashes): get_many_mut(requests {:?}, entry index {n} is absent)", req);
+    let r = env::catch(|| {
+        let res = t.get_many_mut(hashes, |_, _| true);
+        let out: [bool; N] = std::array::from_fn(|i| res[i].is_some());
+        out
+    });
+    match r {
+        Err(m) => {
+            if !expect_panic {
+                return Err(format!("{what} panicked ({m}) although no two requests resolve to the same entry"));
+            }
+        }
+        Ok(out) => {
+            if expect_panic {
+                return Err(format!("{what} returned although two requests resolve to the same entry"));
+            }
+            for i in 0..N {
+                if out[i] != (req[i] < n) {
+                    return Err(format!("{what}: result {i} is {}, expected {}", if out[i] { "Some" } else { "None" }, if req[i] < n { "Some" } else { "None" }));
+                }
+            }
+        }
+    }
+    if t.len() != n || t.iter().count() != n {
+        return Err(format!("{what} changed the table"));
+    }
+    Ok(())
+}
+
+fn zst_all() -> Result<u64, String> {
+    let mut count = 0;
+    for n in 0..=5usize {
+        zst_tuple::<0>(n, [])?;
+        for a in 0..=n {
+            zst_tuple::<1>(n, [a])?;
+            for b in 0..=n {
+                zst_tuple::<2>(n, [a, b])?;
+                for c in 0..=n {
+                    zst_tuple::<3>(n, [a, b, c])?;
+                    count += 1;
+                    if n <= 3 {
+                        for d in 0..=n {
+                            zst_tuple::<4>(n, [a, b, c, d])?;
+                            count += 1;
+                        }
+                    }
+                }
+            }
+        }
+    }
+    Ok(count)
+}
+
+impl Config for ZstManyMut {
+    fn label(&self) -> String {
+        "HashTable<zero-sized>-many-mut".into()
+    }
+    fn run(&self) -> ConfigReport {
+        crate::crumbs::set_config(&self.label());
+        let t0 = std::time::Instant::now();
+        env::reset();
+        let mut rep = ConfigReport { label: self.label(), mode: "enum".into(), exhaustive: true, ..Default::default() };
+        match env::catch(zst_all) {
+            Ok(Ok(n)) => {
+                rep.executions = n;
+                rep.states = 6;
+                rep.detail = json!({"entries": "0..=5", "tuples": "N = 0..=4 over present and absent entries", "runs": n, "distinct_nontrivial": n});
+            }
+            Ok(Err(m)) | Err(m) => rep.violations.push(Viol { config: self.label(), message: m, replay: json!({"zst_many_mut": true}) }),
+        }
+        rep.wall_s = t0.elapsed().as_secs_f64();
+        rep
+    }
+    fn replay(&self, _rp: &Value) -> Result<(), String> {
+        env::reset();
+        match env::catch(zst_all) {
+            Ok(r) => r.map(|_| ()),
+            Err(m) => Err(m),
+        }
+    }
 }
